@@ -182,6 +182,11 @@ type fidRef struct {
 	// The node above will be closed only when refs reaches zero.
 	refs int64
 
+	// openMu serializes Tlopen requests on this fid, which check opened,
+	// call File.Open and only then set opened: without it two concurrent
+	// Tlopens both pass the check and File.Open is called twice.
+	openMu sync.Mutex
+
 	// opened indicates whether this has been opened already.
 	//
 	// This is updated in handlers.go.
